@@ -69,6 +69,8 @@ fn alphabet() -> Vec<Ev> {
         s(false, true, false, 0, false, Body::Ideal, 0),
         s(false, true, true, 0, false, Body::Ideal, 0),
         s(true, false, false, 0, false, Body::Ideal, 0),
+        // a middle fragment that does not ask for a confirm
+        s(false, false, false, 0, false, Body::Ideal, 0),
         s(true, true, false, -1, false, Body::Ideal, 0),
         s(true, true, true, 1, false, Body::Ideal, 0),
         s(true, true, false, 8, false, Body::Ideal, 0),
